@@ -75,6 +75,18 @@ class Ctx:
         t = time.time()
         self.stats.queries += 1
         r = self.solver.check(*extra)
+        if r == z3.unknown:
+            # one retry in a fresh solver with three times the budget (a loaded machine must not flip a verdict to
+            # "unknown"); still unknown -> inconclusive, never a pass
+            s2 = z3.Solver()
+            s2.set("timeout", 3 * QUERY_TIMEOUT_MS)
+            s2.add(*self.solver.assertions())
+            r = s2.check(*extra)
+            self.stats.queries += 1
+            if r == z3.sat:
+                # keep the model reachable through self.solver.model()
+                self.solver = s2
+                self.solver.set("timeout", QUERY_TIMEOUT_MS)
         self.stats.solver_s += time.time() - t
         if r == z3.unknown:
             raise Inconclusive(f"solver unknown: {self.solver.reason_unknown()}")
